@@ -2,7 +2,7 @@
     interpreter) and renders the observations.  Used by the extracted
     driver and by the in-Coq [vm_compute] cross-check; no theorem depends
     on this file. *)
-From WalModel Require Export Proto.
+From WalModel Require Export Proto Reader.
 
 Definition PF : nat := Z.to_nat 100000.
 Definition init_result : res unit := wal_init.
@@ -156,6 +156,62 @@ Definition run_cmd (toks : list string) (st : state) : string * option state :=
           | POk tr => ("ok " ++ dump_trace tr, Some st)
           | PErr e => ("err " ++ err_token e, None)
           | PUnmodelled => ("unm 00", None)
+          end
+      | None => ("bad", None)
+      end
+  | "read" :: t :: _ =>
+      match str_arg t with
+      | Some text =>
+          match read_sexpr text with
+          | ROk v _ => ("ok " ++ print_val [] 200 v, Some st)
+          | RErr => ("err P", Some st)
+          | RUnm => ("unm 00", None)
+          end
+      | None => ("bad", None)
+      end
+  | "reads" :: t :: _ =>
+      match str_arg t with
+      | Some text =>
+          match read_sexprs text with
+          | ROk l _ => ("ok " ++ print_val [] 200 (WL l), Some st)
+          | RErr => ("err P", Some st)
+          | RUnm => ("unm 00", None)
+          end
+      | None => ("bad", None)
+      end
+  | "wstr" :: t :: _ =>
+      match str_arg t with
+      | Some text =>
+          match read_sexpr text with
+          | ROk v _ =>
+              match wal_str0 v with
+              | Some txt => ("ok S" ++ hex_of_string txt, Some st)
+              | None => ("unm 01", None)
+              end
+          | RErr => ("err P", Some st)
+          | RUnm => ("unm 00", None)
+          end
+      | None => ("bad", None)
+      end
+  | "rt" :: t :: _ =>
+      (* read, print, read again *)
+      match str_arg t with
+      | Some text =>
+          match read_sexpr text with
+          | ROk v _ =>
+              match wal_str0 v with
+              | Some txt =>
+                  match read_sexpr txt with
+                  | ROk v2 _ =>
+                      if String.eqb (print_val [] 200 v) (print_val [] 200 v2) then ("ok same", Some st)
+                      else ("ok DIFF", Some st)
+                  | RErr => ("ok DIFF", Some st)
+                  | RUnm => ("unm 02", None)
+                  end
+              | None => ("unm 01", None)
+              end
+          | RErr => ("err P", Some st)
+          | RUnm => ("unm 00", None)
           end
       | None => ("bad", None)
       end
